@@ -60,10 +60,29 @@ def main():
     if args.replay:
         common.repo_src()
         obj = json.load(open(args.replay))
+        if obj.get('kind') == 'no-failing-input-found':
+            # nothing to re-execute on the implementation: the file names the theorems / correspondence streams that no longer check; say so and re-run the check itself
+            print('this replay file records a broken proof obligation or correspondence, not a failing input:')
+            print('  undischarged theorems: %s' % json.dumps(obj.get('undischarged_theorems'))[:600])
+            for m in (obj.get('correspondence_mismatches') or [])[:3]:
+                print('  mismatch: %s' % json.dumps(m, default=str)[:500])
+            print('re-running the check on the current tree …')
+            rc = subprocess.run([sys.executable, os.path.abspath(__file__), prop, '--tier', 'quick'], cwd=common.VERIF).returncode
+            return 1 if rc == 1 else (0 if rc == 0 else 2)
         extname = (obj.get('failure') or {}).get('extension')
         if extname:
             return importlib.import_module(extname).replay(obj)
         return plugin.replay(obj)
+    # watchdog: a check that does not finish is a machinery error (exit 2), never a silent hang
+    import signal
+
+    def on_alarm(signum, frame):
+        raise TimeoutError('check %s exceeded its time limit' % prop)
+    try:
+        signal.signal(signal.SIGALRM, on_alarm)
+        signal.alarm(int(os.environ.get('VERIF_TIME_LIMIT', '14400' if args.tier == 'thorough' else '2400')))
+    except (ValueError, AttributeError):
+        pass
     try:
         return run(plugin, prop, args.tier, seed, t0)
     except Exception:
